@@ -1,5 +1,10 @@
 import Zrnt.ForkChoice.Types
 /-!
+# The model of `eth2/forkchoice` BEFORE the `fix:` commit 38d1471 (OnPrune as it was coded)
+
+Kept only for the witness theorems `Old.*` of `Proofs/Properties/C09–C11`: the defects of the old `OnPrune` (and of the
+index users after a prune) are proved on concrete histories. The current code is modelled in `Model.lean`.
+
 # Code-shaped model of `eth2/forkchoice` (ProtoArray, ProtoVoteStore, ProtoForkChoice)
 
 Every definition follows the control flow of the Go function named in its doc comment
@@ -14,7 +19,7 @@ Every definition follows the control flow of the Go function named in its doc co
   state as the Go code left it; the wrapper's mutex is the flag `held` and acquiring it twice is `blocked`.
 * After a `panic` the harness abandons the instance, so a panicking call has no successor state.
 -/
-namespace Zrnt.ForkChoice
+namespace Zrnt.ForkChoice.Old
 
 /-- Outcome of a call on the proto array: state after the call and result, or error (state kept), or panic. -/
 inductive POut (σ α : Type) where
@@ -483,127 +488,53 @@ def sinkCall (pr : PA) (ref : NodeRef) (canonical : Bool) : PA × Bool :=
     | _ => true
   ({ pr with sinkLog := pr.sinkLog ++ [(ref, canonical, ok)] }, ok)
 
-/-- `rel` of `OnPrune`: the position in `pr.nodes` of a parent of the node at position `i` (parents come first) -/
-def relPos (offset : Nat) (parent : Option Idx) (i : Nat) : Option Nat :=
-  match parent with
-  | none => none
-  | some p => if p < offset ∨ p - offset ≥ i then none else some (p - offset)
+/-- second loop of `OnPrune`: send to the sink until it fails; returns the number sent successfully -/
+def sendLoop : List (NodeRef × Bool) → PA → Nat → PA × Nat × Bool
+  | [], pr, k => (pr, k, true)
+  | (r, c) :: rest, pr, k =>
+    match pr.sinkCall r c with
+    | (pr', true) => sendLoop rest pr' (k + 1)
+    | (pr', false) => (pr', k, false)
 
-/-- first loop of `OnPrune`: what stays (the anchor and its transition descendants, except a block at the slot of
-the anchor hanging from it); `acc` = the flags of the positions already visited -/
-def keepFlags (offset anchor anchorSlot : Nat) : List Node → List Bool → List Bool
-  | [], acc => acc
-  | n :: rest, acc =>
-    let i := acc.length
-    let flag :=
-      if i = anchor then true else
-      match relPos offset n.tparent i with
-      | some p => acc.getD p false && !(p == anchor && n.ref.slot == anchorSlot)
-      | none => false
-    keepFlags offset anchor anchorSlot rest (acc ++ [flag])
+/-- third loop of `OnPrune`: `none` = `pr.nodes[1:]` on an empty slice -/
+def dropLoop (ref : NodeRef) : Nat → PA → Option PA
+  | 0, pr => some pr
+  | k + 1, pr =>
+    match pr.nodes with
+    | [] => none
+    | _ :: rest =>
+      dropLoop ref k { pr with indices := aDel pr.indices ref, blockSlots := aDel pr.blockSlots ref.root,
+                               nodes := rest, offset := pr.offset + 1 }
 
-/-- second loop of `OnPrune`: the transition ancestors of the anchor are canonical -/
-def canonFlags (offset : Nat) (ns : List Node) : Nat → Option Nat → List Bool → List Bool
-  | 0, _, acc => acc
-  | _ + 1, none, acc => acc
-  | fuel + 1, some p, acc =>
-    canonFlags offset ns fuel (match ns[p]? with | some n => relPos offset n.tparent p | none => none) (acc.set p true)
-
-/-- third loop of `OnPrune`: send what goes away to the sink (if any) until it fails; whether every call succeeded -/
-def sinkLoop : List (NodeRef × Bool × Bool) → PA → PA × Bool
-  | [], pr => (pr, true)
-  | (ref, keep, canonical) :: rest, pr =>
-    if keep then sinkLoop rest pr
-    else if pr.sink = .absent then sinkLoop rest pr
-    else
-      match pr.sinkCall ref canonical with
-      | (pr', true) => sinkLoop rest pr'
-      | (pr', false) => (pr', false)
-
-/-- `newIndex[i]` for a node that stays -/
-def newIndex (offset : Nat) (keep : List Bool) (i : Nat) : Nat := offset + (keep.take i).count true
-
-/-- `renumber` -/
-def renumber (offset : Nat) (keep : List Bool) (index : Option Idx) : Option Idx :=
-  match index with
-  | none => none
-  | some x =>
-    if x < offset ∨ x - offset ≥ keep.length then none
-    else if keep.getD (x - offset) false then some (newIndex offset keep (x - offset))
-    else none
-
-/-- the nodes that stay, renumbered -/
-def compact (offset : Nat) (keep : List Bool) : Nat → List Node → List Node
-  | _, [] => []
-  | i, n :: rest =>
-    if keep.getD i false then
-      { n with tparent := renumber offset keep n.tparent, fparent := renumber offset keep n.fparent,
-               bestChild := renumber offset keep n.bestChild, bestDesc := renumber offset keep n.bestDesc }
-        :: compact offset keep (i + 1) rest
-    else compact offset keep (i + 1) rest
-
-/-- the rebuilt `indices` map: node at position `i` ↦ `offset + i` -/
-def rebuildIndices (offset : Nat) : Nat → List Node → List (NodeRef × Idx) → List (NodeRef × Idx)
-  | _, [], m => m
-  | i, n :: rest, m => rebuildIndices offset (i + 1) rest (aSet m n.ref (offset + i))
-
-/-- the rebuilt `blockSlots` map: for every root that was known, the first slot still there -/
-def rebuildBlockSlots (old : List (Root × Nat)) : List Node → List (Root × Nat) → List (Root × Nat)
-  | [], m => m
-  | n :: rest, m =>
-    if (aGet old n.ref.root).isSome then
-      match aGet m n.ref.root with
-      | some s => if n.ref.slot < s then rebuildBlockSlots old rest (aSet m n.ref.root n.ref.slot)
-                  else rebuildBlockSlots old rest m
-      | none => rebuildBlockSlots old rest (aSet m n.ref.root n.ref.slot)
-    else rebuildBlockSlots old rest m
-
-/-- last loop of `OnPrune`: a block whose fork-choice parent went away hangs from the first node left of its parent
-root, which takes over its weight; `i` counts up over the positions -/
-def reparent (offset : Nat) (indices : List (NodeRef × Idx)) (blockSlots : List (Root × Nat)) : Nat → Nat → List Node → List Node
-  | 0, _, ns => ns
-  | todo + 1, i, ns =>
-    let next := reparent offset indices blockSlots todo (i + 1)
-    match ns[i]? with
-    | none => ns
-    | some node =>
-      if node.fparent.isSome || node.parentRoot = node.ref.root then next ns else
-      match aGet blockSlots node.parentRoot with
-      | none => next ns
-      | some parentSlot =>
-        if parentSlot < node.ref.slot then
-          let parentIndex := (aGet indices ⟨parentSlot, node.parentRoot⟩).getD 0
-          if parentIndex ≥ offset ∧ parentIndex - offset < i then
-            match ns[parentIndex - offset]? with
-            | none => next ns
-            | some parent =>
-              next ((ns.set i { node with fparent := some parentIndex }).set (parentIndex - offset)
-                { parent with weight := parent.weight + node.weight })
-          else next ns
-        else next ns
-
-/-- `OnPrune` -/
+/-- `OnPrune`, as coded: `j` never advances, so every entry of `pruned` is `pr.nodes[0]`. -/
 def onPrune (pr : PA) (anchorRoot : Root) (anchorSlot : Nat) : POut PA Unit :=
   match aGet pr.indices ⟨anchorSlot, anchorRoot⟩ with
   | none => .ok pr ()
   | some anchorIndex =>
-    match pr.getNode anchorIndex with
-    | none => .err pr
-    | some anchorNode =>
-      let anchor := anchorIndex - pr.offset
-      let keep := keepFlags pr.offset anchor anchorSlot pr.nodes []
-      let canonical := canonFlags pr.offset pr.nodes pr.nodes.length (relPos pr.offset anchorNode.tparent anchor)
-        (List.replicate pr.nodes.length false)
-      let triples := (pr.nodes.zip (keep.zip canonical)).map (fun x => (x.1.ref, x.2.1, x.2.2))
-      match sinkLoop triples pr with
-      | (pr1, false) => .err pr1
-      | (pr1, true) =>
-        if keep.count false = 0 then .ok pr1 () else
-        let remaining := compact pr1.offset keep 0 pr1.nodes
-        let indices := rebuildIndices pr1.offset 0 remaining []
-        let blockSlots := rebuildBlockSlots pr1.blockSlots remaining []
-        let remaining := reparent pr1.offset indices blockSlots remaining.length 0 remaining
-        .ok { pr1 with nodes := remaining, indices := indices, blockSlots := blockSlots, updated := false } ()
+    if anchorIndex = pr.offset then .ok pr () else
+    match pr.findHead anchorRoot anchorSlot with
+    | .err pr' => .err pr'
+    | .panic => .panic
+    | .spin => .spin
+    | .ok pr1 head =>
+      match aGet pr1.indices head with
+      | none => .err pr1
+      | some headIndex =>
+        let count := anchorIndex - pr1.offset
+        if count = 0 then
+          .ok { pr1 with blockSlots := aSet pr1.blockSlots anchorRoot anchorSlot } ()
+        else
+        match pr1.nodes with
+        | [] => .panic
+        | node0 :: _ =>
+          let pruned : List (NodeRef × Bool) :=
+            if pr1.sink = .absent then [] else
+              List.replicate count (node0.ref, decide (node0.bestDesc = some headIndex))
+          let (pr2, upTo, sinkOk) := sendLoop pruned pr1 0
+          let pr3 := { pr2 with blockSlots := aSet pr2.blockSlots anchorRoot anchorSlot }
+          match dropLoop node0.ref upTo pr3 with
+          | none => .panic
+          | some pr4 => if sinkOk then .ok pr4 () else .err pr4
 
 end PA
 
@@ -950,4 +881,4 @@ def run : MState → List Op → MState × List Ans
     let (st2, as) := run st1 ops
     (st2, a :: as)
 
-end Zrnt.ForkChoice
+end Zrnt.ForkChoice.Old
